@@ -115,6 +115,8 @@ def decision(label, src, st):
         return ("werr" if pc in ("aw", "cw") else "ferr"), []
     if name in ("DiscWriteFail", "Q0WriteFail"):
         return "werr", []
+    if name in ("IoZero", "Q0Zero", "DiscZero"):
+        return "wzero", []
     if name == "IoRead":
         return "r", args[0]
     if name == "IoReadFail":
